@@ -15,6 +15,14 @@ WRITER_ASSUMPTION = (
 PROPS = {}
 
 
+def _jl(name):
+    def f(tier):
+        import joblists
+        return getattr(joblists, name)(tier)
+    return f
+
+
+
 def prop(pid, title, **kw):
     kw["title"] = title
     PROPS[pid] = kw
@@ -23,6 +31,7 @@ def prop(pid, title, **kw):
 prop("C16", "Label ordering is a total order equal to CBOR's deterministic key ordering",
      kani={"quick": ["c16_"], "thorough": ["c16x_"], "timeout": {"quick": 400, "thorough": 1800},
            "jobs": 8},
+     mirsym={"jobs": _jl("c16"), "budget_s": {"quick": 200, "thorough": 1200}, "need_both": False},
      bounds={
          "quick": "integer labels: all 2^64 values per operand (pairs and triples); text labels: "
                   "all ASCII strings of length <= 3 (pairs) / <= 2 (mixed triples, registry labels); "
@@ -33,13 +42,6 @@ prop("C16", "Label ordering is a total order equal to CBOR's deterministic key o
      outside="text labels longer than the stated bound (length classes 23/24/255/256 are decided by "
              "mirsym where registered); cmp_canonical relies on the serialiser stub",
      assumptions=[])
-
-
-def _jl(name):
-    def f(tier):
-        import joblists
-        return getattr(joblists, name)(tier)
-    return f
 
 
 prop("C09", "Message structures: accepted iff they match their CDDL, slots map to fields",
@@ -108,5 +110,96 @@ prop("C18", "CWT claims sets and KDF contexts decode and encode per their defini
                       "PartyInfo / SuppPubInfo arrays of arity 0..5",
              "thorough": "claims maps <= 3 entries, KDF context arity 0..7"},
      outside="encode direction is covered by C11's check; larger maps", assumptions=[])
+
+prop("C12", "No map handled by the crate ever carries the same label twice",
+     mirsym={"jobs": _jl("c12"), "budget_s": {"quick": 300, "thorough": 2400}},
+     bounds={"quick": "decode: header / claims maps with <= 2 entries and key maps with <= 3 (every pair of "
+                      "positions, every label: all integers, text <= 2 ASCII bytes), nested positions (body "
+                      "protected + unprotected, signers, recipients, counter-signatures) with 2 entries in total; "
+                      "encode: see the encode jobs' bounds",
+             "thorough": "one more entry per map"},
+     outside="larger maps; key encodings (parser stub: coset sees the decoded key only)", assumptions=[])
+
+_STRUCT_BOUNDS = {
+    "quick": "messages obtained by decoding every accepted input within: arrays of the type's arity, one "
+             "nested signature/recipient, 1 header map entry in total, depth 4 -- each once with its retained "
+             "protected bytes and once as its builder-made twin (retained bytes dropped); external AAD, "
+             "detached payload, payload, signature/tag/ciphertext: byte strings of symbolic 64-bit length; "
+             "the free structure functions with every context and protected headers from the palette "
+             "{decoded-from-wire, built empty, built alg-only, built kid-only, built one extra parameter}",
+    "thorough": "2 header entries in total, 2 nested structures, depth 5",
+}
+_STRUCT_ASSUME = ["the byte strings handed to the caller's closures are compared as the Value trees the "
+                  "serialiser stub recorded: equality of bytes = equality of trees assumes ciborium serialises a "
+                  "tree deterministically and injectively (RFC 8949 deterministic encoding)"]
+
+prop("C03", "To-be-signed bytes are exactly RFC 8152 Sig_structure",
+     mirsym={"jobs": _jl("c03"), "budget_s": {"quick": 300, "thorough": 2400}, "need_both": False},
+     bounds=_STRUCT_BOUNDS, outside="length-class boundaries of each bstr head live inside ciborium",
+     assumptions=_STRUCT_ASSUME)
+prop("C04", "To-be-MACed bytes are exactly RFC 8152 MAC_structure",
+     mirsym={"jobs": _jl("c04"), "budget_s": {"quick": 300, "thorough": 2400}, "need_both": False},
+     bounds=_STRUCT_BOUNDS, outside="length-class boundaries of each bstr head live inside ciborium",
+     assumptions=_STRUCT_ASSUME)
+prop("C05", "AEAD additional data is exactly RFC 8152 Enc_structure",
+     mirsym={"jobs": _jl("c05"), "budget_s": {"quick": 300, "thorough": 2400}, "need_both": False},
+     bounds=_STRUCT_BOUNDS, outside="length-class boundaries of each bstr head live inside ciborium",
+     assumptions=_STRUCT_ASSUME)
+prop("C06", "What is signed, MACed or encrypted is what is later verified or decrypted",
+     mirsym={"jobs": _jl("c06"), "budget_s": {"quick": 300, "thorough": 2400}, "need_both": False},
+     bounds={"quick": "every sequence of <= 3 builder calls over {protected, unprotected, payload, create, "
+                      "try-create (succeeding or failing creator), create-detached} for the seven message "
+                      "builders, headers from a 4-element palette, all byte strings symbolic; then build, "
+                      "encode/decode at the Value level, the byte level and (where defined) the tagged level, "
+                      "verify/decrypt with the same or a different AAD; COSE_Sign with up to 3 signers",
+             "thorough": "sequences of <= 4 calls"},
+     outside="longer histories; perturbation of payload/protected header is covered through C03-C05's injectivity",
+     assumptions=_STRUCT_ASSUME + ["parse(enc(v)) = v for byte strings written on the same path"])
+
+_RT_BOUNDS = {
+    "quick": "every input accepted by the type's decoder within: arrays of the type's arity (+1), nested arrays "
+             "<= 3, maps <= 2 entries (2 in total per input), depth 4, text <= 1 ASCII byte, all integers, byte "
+             "strings of symbolic 64-bit length",
+    "thorough": "maps <= 3 entries (3 in total), nested arrays <= 4, depth 5, text <= 2",
+}
+prop("C02", "Protected-header bytes are kept and reused bit-for-bit, never re-encoded",
+     mirsym={"jobs": _jl("c02"), "budget_s": {"quick": 300, "thorough": 2400}},
+     bounds=_RT_BOUNDS,
+     outside="'the parsed view is the same for every encoding of the same content' reduces to the parser "
+             "(from_slice = from_cbor_value . parse, C13) and is not re-decided here",
+     assumptions=_STRUCT_ASSUME)
+prop("C07", "Decode-encode reaches a fixed point in one step and loses nothing",
+     mirsym={"jobs": _jl("c07"), "budget_s": {"quick": 300, "thorough": 2400}},
+     bounds=_RT_BOUNDS, outside="bignum-tagged integers and indefinite lengths are parser-level (stub)",
+     assumptions=["parse(enc(v)) = v for byte strings written on the same path"])
+prop("C11", "Encoding emits exactly the modelled content in the documented CBOR shape",
+     mirsym={"jobs": _jl("c11"), "budget_s": {"quick": 300, "thorough": 2400}},
+     bounds={"quick": _RT_BOUNDS["quick"] + "; values are the builder-made twins of decoded values (retained "
+                      "bytes dropped) plus struct literals of Header / CoseKey / ClaimsSet with every subset of "
+                      "typed fields and 1 arbitrary extra label",
+             "thorough": _RT_BOUNDS["thorough"] + "; 2 arbitrary extra labels"},
+     outside="byte-level well-formedness of the output is ciborium's (serialiser stub)",
+     assumptions=["parse(enc(v)) = v for byte strings written on the same path"])
+prop("C13", "An accepted input is exactly one CBOR item; byte and Value APIs agree",
+     mirsym={"jobs": _jl("c13"), "budget_s": {"quick": 300, "thorough": 2400}, "need_both": False},
+     bounds=_RT_BOUNDS,
+     outside="'every proper prefix of an accepted input is rejected' and 'a complete item followed by a suffix is "
+             "parsed as that item' are facts about CBOR's prefix-freeness inside ciborium: assumed (parser stub "
+             "returns an arbitrary consumed length), not decided",
+     assumptions=[])
+prop("C14", "Tagged forms carry exactly the structure's registered CBOR tag",
+     mirsym={"jobs": _jl("c14"), "budget_s": {"quick": 300, "thorough": 2400}, "need_both": False},
+     bounds={"quick": "all six taggable types; tag numbers: every u64; bodies as in C09's quick bounds with 1 map "
+                      "entry in total; untagged decoders of all eight structure types on items that may be tags",
+             "thorough": "bodies with 3 map entries in total"},
+     outside="tag-head encodings (parser stub)", assumptions=[])
+prop("C20", "Canonicalising a key sorts its encoding and changes nothing else",
+     mirsym={"jobs": _jl("c20"), "budget_s": {"quick": 300, "thorough": 2400}, "need_both": False},
+     bounds={"quick": "keys with every subset of {kid, alg, key_ops, base IV} and 2 extra parameters with arbitrary "
+                      "labels (any i64 outside 1..5, ASCII text <= 1 byte), both orderings",
+             "thorough": "3 extra parameters"},
+     outside="more parameters; text labels of 24 bytes or more",
+     assumptions=["serialiser stub for a single integer / short text = RFC 8949 shortest-form bytes (needed by "
+                  "Label::cmp_canonical)"])
 
 NOT_APPLICABLE = {}
